@@ -117,47 +117,98 @@ def _compress_body_zstd(data: bytes, level: int) -> bytes:
 _ZSTD_CONTENTSIZE_UNKNOWN = 18446744073709551615
 
 
-def _zstd_content_size(data: bytes) -> int | None:
-    """Return a zstd frame's declared decompressed size, or None when not stored."""
-    import zstandard
+#: Skippable frames carry user data a decoder must step over (RFC 8878 §3.1.2):
+#: magic 0x184D2A5?, a 4-byte little-endian length, then that many bytes.
+_ZSTD_SKIPPABLE_MAGIC = 0x184D2A50
+_ZSTD_SKIPPABLE_MAGIC_MASK = 0xFFFFFFF0
+_ZSTD_BLOCK_HEADER_BYTES = 3
+_ZSTD_BLOCK_TYPE_RLE = 1
+_ZSTD_BLOCK_TYPE_RESERVED = 3
+_ZSTD_CHECKSUM_BYTES = 4
 
-    size = zstandard.get_frame_parameters(data).content_size
-    if size in (-1, _ZSTD_CONTENTSIZE_UNKNOWN):
-        return None
-    return int(size)
 
+def _zstd_frame_info(data: memoryview) -> tuple[int, int | None, bool]:
+    """Measure the zstd frame at the start of *data* without decoding it.
 
-def _decompress_body_zstd(data: bytes, *, max_output_size: int | None = None) -> bytes:
-    """Decompress zstd-compressed *data* with optional output cap.
+    A zstd body is a concatenation of frames and nothing in a frame header says
+    how long its compressed form is, so the only way to find where the next
+    frame starts is to walk the block headers (RFC 8878 §3.1.1.2) — the same
+    walk as libzstd's ``ZSTD_findFrameCompressedSize``, which python-zstandard
+    does not expose.
 
-    See :func:`decompress` for the cap semantics.
+    Returns:
+        ``(length, declared, skippable)``: the frame's compressed length, the
+        decompressed size its header declares (``None`` when not stored) and
+        whether it is a skippable frame, which carries no content.
+
+    Raises:
+        DecompressionError: If the frame is cut short or malformed.
+        zstandard.ZstdError: If *data* does not start with a zstd frame header.
+
     """
     import zstandard
 
-    declared = _zstd_content_size(data)
+    if len(data) >= 8 and int.from_bytes(data[:4], "little") & _ZSTD_SKIPPABLE_MAGIC_MASK == _ZSTD_SKIPPABLE_MAGIC:
+        end = 8 + int.from_bytes(data[4:8], "little")
+        if end > len(data):
+            raise DecompressionError("Truncated zstd skippable frame")
+        return end, None, True
+
+    params = zstandard.get_frame_parameters(data)
+    declared = None if params.content_size in (-1, _ZSTD_CONTENTSIZE_UNKNOWN) else int(params.content_size)
+    pos = zstandard.frame_header_size(data)
+    while True:
+        if pos + _ZSTD_BLOCK_HEADER_BYTES > len(data):
+            raise DecompressionError("Truncated zstd frame")
+        block_header = int.from_bytes(data[pos : pos + _ZSTD_BLOCK_HEADER_BYTES], "little")
+        block_type = (block_header >> 1) & 3
+        if block_type == _ZSTD_BLOCK_TYPE_RESERVED:
+            raise DecompressionError("Corrupt zstd frame: reserved block type")
+        # An RLE block stores one byte however long the run it stands for.
+        pos += _ZSTD_BLOCK_HEADER_BYTES + (1 if block_type == _ZSTD_BLOCK_TYPE_RLE else block_header >> 3)
+        if block_header & 1:
+            break
+    if params.has_checksum:
+        pos += _ZSTD_CHECKSUM_BYTES
+    if pos > len(data):
+        raise DecompressionError("Truncated zstd frame")
+    return pos, declared, False
+
+
+def _decompress_zstd_frame(
+    frame: memoryview, declared: int | None, produced: int, max_output_size: int | None
+) -> bytes:
+    """Decompress one complete zstd frame.
+
+    *declared* is the frame's declared content size, *produced* the bytes
+    earlier frames of the same body already decoded to; both count against
+    *max_output_size*.  See :func:`decompress` for the cap semantics.
+    """
+    import zstandard
 
     if max_output_size is None:
         # No declared size => a streaming frame; the one-shot API refuses those.
         # The streaming reader handles both kinds.
         if declared is None:
-            with zstandard.ZstdDecompressor().stream_reader(data) as reader:
+            with zstandard.ZstdDecompressor().stream_reader(frame) as reader:
                 return reader.read()
-        return zstandard.ZstdDecompressor().decompress(data)
+        return zstandard.ZstdDecompressor().decompress(frame)
 
     # Refuse the frame up-front when the header claims more than allowed.
-    if declared is not None and declared > max_output_size:
+    if declared is not None and produced + declared > max_output_size:
         raise DecompressionLimitExceeded(
             f"Compressed frame declares decompressed size {declared} bytes, "
             f"which exceeds max_output_size={max_output_size}"
+            + (f" after {produced} bytes from earlier frames" if produced else "")
         )
 
     if declared is not None:
-        return zstandard.ZstdDecompressor().decompress(data)
+        return zstandard.ZstdDecompressor().decompress(frame)
 
     decompressor = zstandard.ZstdDecompressor()
     chunks: list[bytes] = []
-    total = 0
-    with decompressor.stream_reader(data) as reader:
+    total = produced
+    with decompressor.stream_reader(frame) as reader:
         while True:
             chunk = reader.read(min(_DECOMPRESS_CHUNK_BYTES, max_output_size - total + 1))
             if not chunk:
@@ -167,6 +218,28 @@ def _decompress_body_zstd(data: bytes, *, max_output_size: int | None = None) ->
                 raise DecompressionLimitExceeded(f"Decompressed output exceeds max_output_size={max_output_size}")
             chunks.append(chunk)
     return b"".join(chunks)
+
+
+def _decompress_body_zstd(data: bytes, *, max_output_size: int | None = None) -> bytes:
+    """Decompress zstd-compressed *data* with optional output cap.
+
+    *data* may hold several frames back to back (RFC 8878 §3.1: the content is
+    the concatenation of what each frame decodes to); every frame is decoded and
+    all of them share one cap.  See :func:`decompress` for the cap semantics.
+    """
+    rest = memoryview(data)
+    parts: list[bytes] = []
+    produced = 0
+    while True:
+        length, declared, skippable = _zstd_frame_info(rest)
+        if not skippable:
+            part = _decompress_zstd_frame(rest[:length], declared, produced, max_output_size)
+            produced += len(part)
+            parts.append(part)
+        rest = rest[length:]
+        if not rest:
+            break
+    return parts[0] if len(parts) == 1 else b"".join(parts)
 
 
 def _compress_body_gzip(data: bytes, level: int) -> bytes:
@@ -187,38 +260,47 @@ def _decompress_body_gzip(data: bytes, *, max_output_size: int | None = None) ->
     cannot be trusted for a bomb-cap precheck.  Defence-in-depth is a
     bounded streaming loop: feed input through ``decompressobj`` and
     bail the moment ``max_output_size`` is exceeded.
-    """
-    do = zlib.decompressobj(_GZIP_WBITS)
-    if max_output_size is None:
-        return do.decompress(data) + do.flush()
 
+    *data* may hold several members back to back (RFC 1952 §2.2: the content
+    is the concatenation of what each member decodes to); every member is
+    decoded and all of them share one cap.
+    """
     chunks: list[bytes] = []
     total = 0
     remaining = data
-    # ``do.eof`` ends the loop: once the member's trailer has been read zlib
-    # produces nothing more and moves the rest of the input to ``unused_data``,
-    # so neither ``chunk`` nor ``unconsumed_tail`` can signal completion when
-    # the last call stopped on the output bound rather than on the input.
-    while not do.eof and (remaining or do.unconsumed_tail):
-        if do.unconsumed_tail:
+    members = 0
+    while True:
+        do = zlib.decompressobj(_GZIP_WBITS)
+        inbuf = remaining
+        # ``do.eof`` ends a member: once its trailer has been read zlib produces
+        # nothing more and moves the rest of the input to ``unused_data`` (and
+        # leaves it in ``unconsumed_tail`` as well), so neither ``chunk`` nor
+        # ``unconsumed_tail`` can signal completion.
+        while not do.eof:
+            try:
+                if max_output_size is None:
+                    chunk = do.decompress(inbuf)
+                else:
+                    chunk = do.decompress(inbuf, min(_DECOMPRESS_CHUNK_BYTES, max_output_size - total + 1))
+            except zlib.error as exc:
+                if not members:
+                    raise
+                raise DecompressionError(f"Invalid data after gzip member {members}: {exc}") from exc
             inbuf = do.unconsumed_tail
-        else:
-            inbuf, remaining = remaining, b""
-        chunk = do.decompress(inbuf, min(_DECOMPRESS_CHUNK_BYTES, max_output_size - total + 1))
-        if chunk:
-            total += len(chunk)
-            if total > max_output_size:
-                raise DecompressionLimitExceeded(f"Decompressed gzip output exceeds max_output_size={max_output_size}")
-            chunks.append(chunk)
-        if not chunk and not do.unconsumed_tail:
+            if chunk:
+                total += len(chunk)
+                if max_output_size is not None and total > max_output_size:
+                    raise DecompressionLimitExceeded(
+                        f"Decompressed gzip output exceeds max_output_size={max_output_size}"
+                    )
+                chunks.append(chunk)
+            elif not inbuf:
+                break
+        members += 1
+        remaining = do.unused_data
+        if not remaining:
             break
-    tail = do.flush()
-    if tail:
-        total += len(tail)
-        if total > max_output_size:
-            raise DecompressionLimitExceeded(f"Decompressed gzip output exceeds max_output_size={max_output_size}")
-        chunks.append(tail)
-    return b"".join(chunks)
+    return chunks[0] if len(chunks) == 1 else b"".join(chunks)
 
 
 def compress(encoding: Encoding, data: bytes, *, level: int | None = None) -> bytes:
